@@ -175,6 +175,19 @@ func c03Run(c *ev.Ctx) {
 			g.names = append(g.names, fmt.Sprintf("n%d", i))
 		}
 	}
+	// names that are proper prefixes / extensions of one another: a name lookup that compares
+	// without the terminator, or by length only, resolves to the wrong sibling (seeded C03.r8)
+	if r.Chance(1, 2) {
+		for j, k := 0, r.Range(2, 6); j < k; j++ {
+			base := g.names[r.Intn(len(g.names))]
+			if rs := []rune(base); r.Bool() && len(rs) > 1 {
+				g.names = append(g.names, string(rs[:len(rs)-1]))
+			} else {
+				g.names = append(g.names, base+[]string{"_raw", "0", "語", " "}[r.Intn(4)])
+			}
+		}
+		c.Count("histories_with_prefix_names", 1)
+	}
 	s := &hx.Script{SB: sbv}
 	path := filepath.Join(c.Dir, "c03.h5")
 	e := &hx.Exec{Path: path}
